@@ -141,7 +141,7 @@ func init() {
 			// wait for the listener
 			up := false
 			for i := 0; i < 400 && !up; i++ {
-				if a := realDo(cl, "GET", base+"/ping", tHost, "", nil, ""); a.err == nil && a.status == 200 {
+				if a := realDo(cl, "GET", base+e.deployTarget("/ping"), tHost, "", nil, ""); a.err == nil && a.status == 200 {
 					up = true
 				} else {
 					time.Sleep(50 * time.Millisecond)
@@ -182,7 +182,7 @@ func init() {
 				{"GET", "/oauth2/sign_out", small, nil, ""}, {"GET", "/oauth2/callback?code=x&state=y", "", nil, ""},
 			}
 			for _, tg := range targets {
-				a := realDo(cl, tg.method, base+tg.target, tHost, tg.cookie, tg.hdr, tg.body)
+				a := realDo(cl, tg.method, base+e.deployTarget(tg.target), tHost, tg.cookie, tg.hdr, tg.body)
 				c.casen(fmt.Sprintf("real|%s|%s|%s|%v|%v", lk.name, tg.method, tg.target, tg.cookie != "", tg.hdr != nil), fmt.Sprintf("%s %s => %d %s", tg.method, tg.target, a.status, a.proto))
 				c.count("c19:real-request")
 				if a.err == nil {
@@ -232,7 +232,7 @@ func init() {
 					for _, uu := range e.ups {
 						uu.take()
 					}
-					a := realDo(cl, "GET", base+tg, tHost, "", nil, "")
+					a := realDo(cl, "GET", base+e.deployTarget(tg), tHost, "", nil, "")
 					hits := 0
 					for _, uu := range e.ups {
 						hits += len(uu.take())
